@@ -46,7 +46,7 @@ class Replacer(MultiFunction):
 
     def external_operator(self, o):
         """Replace an external_operator."""
-        o = self.mapping.get(o) or o
+        o = self.mapping.get(o, o)
         if isinstance(o, ExternalOperator):
             new_ops = tuple(replace(op, self.mapping) for op in o.ufl_operands)
             new_args = tuple(replace(arg, self.mapping) for arg in o.argument_slots())
@@ -55,7 +55,7 @@ class Replacer(MultiFunction):
 
     def interpolate(self, o):
         """Replace an interpolate."""
-        o = self.mapping.get(o) or o
+        o = self.mapping.get(o, o)
         if isinstance(o, Interpolate):
             new_args = tuple(replace(arg, self.mapping) for arg in o.argument_slots())
             return o._ufl_expr_reconstruct_(*reversed(new_args))
